@@ -43,6 +43,8 @@ func main() {
 		err = cmdScan(*in, *out)
 	case "values":
 		err = cmdValues(*in, *out)
+	case "registry":
+		err = cmdRegistry(*in, *out)
 	case "cache":
 		err = cmdCache(*in, *out, *names)
 	default:
